@@ -45,33 +45,33 @@ def register(reg):
     Loc = reg.model("Local", cls="werkzeug/local.py:Local", fields={"_Local__storage": CVd})
     Stk = reg.model("LocalStack", cls="werkzeug/local.py:LocalStack", fields={"_storage": CVl})
     reg.spec("D(self)", "self._Local__storage.payload")
-    reg.spec("has(self, k)", "self._Local__storage.bound and k in self._Local__storage.payload")
+    reg.spec("l_has(self, k)", "self._Local__storage.bound and k in self._Local__storage.payload")
 
     reg.contract(
         "werkzeug/local.py:Local.__setattr__", prop=P, self_model=Loc, params={"name": "str", "value": "opaque:any"},
         ensures=[
             "self._Local__storage.bound and self._Local__storage.nset == old(self._Local__storage.nset) + 1",
             "name in D(self) and D(self)[name] == value",
-            "forall_s(lambda k: implies(k != name, (k in D(self)) == old(has(self, k))))",
-            "forall_s(lambda k: implies(k != name and old(has(self, k)), D(self)[k] == old(D(self))[k]))",
+            "forall_s(lambda k: implies(k != name, (k in D(self)) == old(l_has(self, k))))",
+            "forall_s(lambda k: implies(k != name and old(l_has(self, k)), D(self)[k] == old(D(self))[k]))",
         ],
     )
     reg.contract(
         "werkzeug/local.py:Local.__delattr__", prop=P, self_model=Loc, params={"name": "str"},
         ensures=[
-            "old(has(self, name)) and self._Local__storage.bound and self._Local__storage.nset == old(self._Local__storage.nset) + 1",
+            "old(l_has(self, name)) and self._Local__storage.bound and self._Local__storage.nset == old(self._Local__storage.nset) + 1",
             "not (name in D(self))",
-            "forall_s(lambda k: implies(k != name, (k in D(self)) == old(has(self, k))))",
-            "forall_s(lambda k: implies(k != name and old(has(self, k)), D(self)[k] == old(D(self))[k]))",
+            "forall_s(lambda k: implies(k != name, (k in D(self)) == old(l_has(self, k))))",
+            "forall_s(lambda k: implies(k != name and old(l_has(self, k)), D(self)[k] == old(D(self))[k]))",
         ],
-        raises={"AttributeError": "not old(has(self, name))"},
+        raises={"AttributeError": "not old(l_has(self, name))"},
         raises_ensures={"AttributeError": ["self._Local__storage.nset == old(self._Local__storage.nset)"]},
     )
     reg.contract(
         "werkzeug/local.py:Local.__getattr__", prop=P, self_model=Loc, params={"name": "str"}, returns="opaque:any",
-        ensures=["has(self, name) and result == D(self)[name]",
+        ensures=["l_has(self, name) and result == D(self)[name]",
                  "self._Local__storage.nset == old(self._Local__storage.nset)"],
-        raises={"AttributeError": "not has(self, name)"},
+        raises={"AttributeError": "not l_has(self, name)"},
     )
     reg.contract(
         "werkzeug/local.py:Local.__release_local__", prop=P, self_model=Loc,
